@@ -146,8 +146,31 @@ func (m *C09) OnBlock(e *Env, blk *world.BlockRecord) {
 			e.Fail("C09", "request_missing", "", "accepted request %d not stored", m.reqCount)
 			return
 		}
+		// exactly ask_count participants, each of them eligible at that moment (stated directly, independent of the sampler)
+		elig := map[string]bool{}
+		for _, o := range opers {
+			elig[o] = true
+		}
+		if len(stored.RequestedValidators) != ask {
+			e.Fail("C09", "oracle_committee_size", "", "request %d asked for %d validators, %d were chosen: %q (tries %d)", m.reqCount, ask, len(stored.RequestedValidators), stored.RequestedValidators, m.tryCount)
+			return
+		}
+		for _, v := range stored.RequestedValidators {
+			if !elig[v] {
+				e.Fail("C09", "oracle_committee_not_eligible", "", "request %d: chosen validator %q is not bonded and oracle-active (eligible %v, tries %d)", m.reqCount, v, opers, m.tryCount)
+				return
+			}
+		}
+		tries := 0
+		if m.tryCount > 1<<20 {
+			// the specification runs that many rounds; no harness can: such a value is covered by the checks above and by the stall watchdog
+			e.St.Probe("c09_differential_skipped_huge_try_count")
+			m.nOracle++
+			continue
+		}
+		tries = int(m.tryCount)
 		d := ref.NewHMACDRBG(m.seed, be64(m.reqCount), chainID)
-		idx := ref.ChooseBestOfN(d, weights, ask, int(m.tryCount))
+		idx := ref.ChooseBestOfN(d, weights, ask, tries)
 		var want []string
 		for _, i := range idx {
 			want = append(want, opers[i])
